@@ -1,6 +1,14 @@
 -- REGENERATED from /repo by tools/extract on every run. Do not edit.
 namespace CaddyModel.Gen
 
+/-- admin.go replaceLocalAdminServer / replaceRemoteAdminServer: the conditions of the returning `if` guards that
+    precede the `defer` which stops the previous admin server (top-level statements, in order), and whether such a
+    defer exists -/
+def localGuardsBeforeStop : List String := []
+def localStopsPreviousServer : Bool := true
+def remoteGuardsBeforeStop : List String := ["cfg==nil"]
+def remoteStopsPreviousServer : Bool := true
+
 /-- the route patterns registered by the admin.api modules of the tree: every `AdminRoute{Pattern: …}` composite
     literal outside admin.go, tests and verif hooks, as (file, pattern); an identifier is resolved to the string
     constant of its package -/
